@@ -162,6 +162,13 @@ static void dump(Scene &sc, int tx, bool processed)
                 printf(" pos %.17g %.17g\n", q.x, q.y);
             }
         }
+        // what the public ConnRef::routingCheckpoints() returns now (the list the route is judged against)
+        {
+            std::vector<Checkpoint> cl = c->routingCheckpoints();
+            printf("CPS %zu %zu", i, cl.size());
+            for (size_t k = 0; k < cl.size(); ++k) printf(" %.17g %.17g", cl[k].point.x, cl[k].point.y);
+            printf("\n");
+        }
         const PolyLine &rt = c->displayRoute();
         printf("ROUTE %zu %zu", i, rt.size());
         for (size_t k = 0; k < rt.size(); ++k) printf(" %.17g %.17g", rt.ps[k].x, rt.ps[k].y);
@@ -316,6 +323,18 @@ int main(int argc, char **argv)
                 int c, side; is >> c >> side;
                 ConnEnd e = readEnd(is, sc);
                 if (side == 0) sc.conns[c]->setSourceEndpoint(e); else sc.conns[c]->setDestEndpoint(e);
+            }
+            else if (cmd == "SETCPS")
+            {
+                // SETCPS conn x1 y1 x2 y2 ..: ConnRef::setRoutingCheckpoints with a NEW list on an existing connector (queues nothing by itself)
+                int c; is >> c;
+                std::vector<Checkpoint> cps; std::string x, y;
+                while (is >> x >> y) cps.push_back(Checkpoint(Point(num(x), num(y))));
+                sc.conns[c]->setRoutingCheckpoints(cps);
+            }
+            else if (cmd == "INVAL")
+            {
+                int c; is >> c; sc.conns[c]->makePathInvalid();
             }
             else if (cmd == "TX")
             {
